@@ -17,8 +17,9 @@ class C12(Prop):
                 # the others ended all at once by Multi::close (five non-log Multi kinds; judged by the oracle, and - the cases without
                 # an individual removal - compared field by field with MExec.v: one callback per executor, after its last item, status StreamEnded)
                 Suite("multi_executors", execgen.HEADER, [execgen.gen_mcase_removal(rng) for _ in range(n // 2)]),
-                # the log channel's old / new pair of executors, sequential_transition on and off (oracle only)
-                Suite("log_old_new_executors(oracle only)", execgen.HEADER, [execgen.gen_logcase(rng) for _ in range(n // 3)], compare=False)]
+                # the log channel's old / new pair of executors, sequential_transition on and off: compared field by field with MExec.v
+                # (events per stream, last old end / first new start in virtual ms, callbacks) and judged by the oracle
+                Suite("log_old_new_executors", execgen.HEADER, [execgen.gen_logcase(rng) for _ in range(n // 3)])]
     def oracle(self, case, recs):
         if case.meta.get("profile") == "mexec": return execgen.oracle_mexec_c12(case, recs)
         if case.meta.get("profile") == "mlog": return execgen.oracle_mlog(case, recs)
